@@ -130,7 +130,7 @@ pub fn emit_tri(seed: u64, n: usize, max_n: usize) {
             // embed in a random plane: p -> o + x*u + y*v, normal = +-(u x v) (any positive multiple)
             let (u, v, nrm) = random_frame(&mut r);
             let sign = if r.coin() { 1.0 } else { -1.0 };
-            let k = sign * r.uniform(0.1, 10.0);
+            let k = sign * if r.coin() { *r.pick(&[1.0, 2.0, 0.5, 4.0]) } else { r.uniform(0.1, 10.0) };
             args.extend([nrm.0 * k, nrm.1 * k, nrm.2 * k]);
             let o = if r.coin() { (0.0, 0.0, 0.0) } else { (r.cad(), r.cad(), r.cad()) };
             for &(x, y) in p.iter() { args.extend([o.0 + x * u.0 + y * v.0, o.1 + x * u.1 + y * v.1, o.2 + x * u.2 + y * v.2]); }
@@ -147,7 +147,24 @@ pub fn emit_tri(seed: u64, n: usize, max_n: usize) {
 
 pub fn random_frame(r: &mut Rng) -> ((f64, f64, f64), (f64, f64, f64), (f64, f64, f64)) {
     let axes = [((1.0, 0.0, 0.0), (0.0, 1.0, 0.0), (0.0, 0.0, 1.0)), ((0.0, 1.0, 0.0), (0.0, 0.0, 1.0), (1.0, 0.0, 0.0)), ((0.0, 0.0, 1.0), (1.0, 0.0, 0.0), (0.0, 1.0, 0.0))];
-    if r.below(3) == 0 { return *r.pick(&axes); }
+    match r.below(4) {
+        0 => return *r.pick(&axes),
+        1 => {
+            // normals with equal absolute components (axis choice ties): every sign pattern of (a,b,c) in {-1,0,1}^3
+            loop {
+                let n = ((r.below(3) as f64) - 1.0, (r.below(3) as f64) - 1.0, (r.below(3) as f64) - 1.0);
+                let l2 = n.0 * n.0 + n.1 * n.1 + n.2 * n.2;
+                if l2 == 0.0 { continue; }
+                let h = if n.0 == 0.0 { (1.0, 0.0, 0.0) } else if n.1 == 0.0 { (0.0, 1.0, 0.0) } else if n.2 == 0.0 { (0.0, 0.0, 1.0) } else { (1.0, 0.0, 0.0) };
+                let cr = |a: (f64, f64, f64), b: (f64, f64, f64)| (a.1 * b.2 - a.2 * b.1, a.2 * b.0 - a.0 * b.2, a.0 * b.1 - a.1 * b.0);
+                let nm = |a: (f64, f64, f64)| { let l = (a.0 * a.0 + a.1 * a.1 + a.2 * a.2).sqrt(); (a.0 / l, a.1 / l, a.2 / l) };
+                let u = nm(cr(n, h));
+                let v = nm(cr(n, u));
+                return (u, v, n);      // the normal is passed exactly as the lattice vector (times the caller's factor)
+            }
+        }
+        _ => {}
+    }
     let m = scad_tree::Mt4::rot_z_matrix(r.uniform(0.0, 360.0)) * scad_tree::Mt4::rot_x_matrix(r.uniform(0.0, 360.0)) * scad_tree::Mt4::rot_y_matrix(r.uniform(0.0, 360.0));
     let c = |p: Pt3| (p.x, p.y, p.z);
     (c(m * Pt3::new(1.0, 0.0, 0.0)), c(m * Pt3::new(0.0, 1.0, 0.0)), c(m * Pt3::new(0.0, 0.0, 1.0)))
